@@ -202,10 +202,14 @@ func evalC13List(cs *c13List) (vs []*Violation) {
 		return obs, n, e, N, more, items
 	}
 	aobs, an, ae, aN, _, aitems := run(16, -1)
+	obs, n, e, N, more, items := run(cs.Cap, cs.Cut)
 	if !successLike(ae) {
+		// rejected (or unfinished) with ample room: the same verdict at the same offset with any other capacity
+		if n != an || e != ae {
+			add("verdict-and-offset-independent-of-capacity", "rejected-with-ample/"+errName(e), fmt.Sprintf("(%d,%v) ample (%d,%v)", n, e, an, ae))
+		}
 		return
 	}
-	obs, n, e, N, more, items := run(cs.Cap, cs.Cut)
 	if n != an || e != ae {
 		add("verdict-and-offset-independent-of-capacity", errName(e), fmt.Sprintf("(%d,%v) ample (%d,%v)", n, e, an, ae))
 		return
@@ -396,7 +400,7 @@ func checkC13(r *Run) {
 		}
 	})
 	// URI parameter / header lists with P <= 5 items
-	items := []string{"transport=udp", "lr", "x=\"q\"", "TTL=1", "maddr = m", "y"}
+	items := []string{"transport=udp", "lr", "x=\"q\"", "TTL=1", "maddr = m", "y", "Y=2"}
 	var lists []string
 	var lrec func(cur []string)
 	lrec = func(cur []string) {
